@@ -1,0 +1,227 @@
+// Copyright 2017-2021 Lei Ni (nilei81@gmail.com) and other contributors.
+//
+// Licensed under the Apache License, Version 2.0 (the "License");
+// you may not use this file except in compliance with the License.
+// You may obtain a copy of the License at
+//
+//     http://www.apache.org/licenses/LICENSE-2.0
+//
+// Unless required by applicable law or agreed to in writing, software
+// distributed under the License is distributed on an "AS IS" BASIS,
+// WITHOUT WARRANTIES OR CONDITIONS OF ANY KIND, either express or implied.
+// See the License for the specific language governing permissions and
+// limitations under the License.
+
+//go:build verif
+// +build verif
+
+package raft
+
+// This file is only compiled with the `verif` build tag. It gives the
+// deterministic simulation harness kept outside of this repository read only
+// access to the protocol state and a thin wrapper around entryLog.
+
+import (
+	"sort"
+
+	"github.com/lni/dragonboat/v4/internal/server"
+	pb "github.com/lni/dragonboat/v4/raftpb"
+)
+
+// VerifRemote is the leader's view of one follower.
+type VerifRemote struct {
+	ReplicaID uint64
+	Match     uint64
+	Next      uint64
+	State     string
+	Kind      string // voter, nonvoting, witness
+	Active    bool
+}
+
+// VerifState is a snapshot of the raft state of a Peer.
+type VerifState struct {
+	ReplicaID           uint64
+	Role                string
+	Term                uint64
+	Vote                uint64
+	LeaderID            uint64
+	Committed           uint64
+	Processed           uint64
+	Applied             uint64
+	FirstIndex          uint64
+	LastIndex           uint64
+	LastTerm            uint64
+	PendingConfigChange bool
+	TransferTarget      uint64
+	Quiesce             bool
+	Remotes             []VerifRemote
+	PendingReads        []pb.SystemCtx
+	Votes               map[uint64]bool
+	IsNonVoting         bool
+	IsWitness           bool
+}
+
+// VerifPeek returns the protocol state of p. It takes no lock and touches
+// nothing outside of the raft struct (FirstIndex, LastIndex and LastTerm are
+// left zero), so it can be called while a task is parked holding the
+// LogReader's mutex.
+func VerifPeek(p *Peer) VerifState {
+	return verifPeek(p, false)
+}
+
+// VerifPeekFull is VerifPeek plus the fields that need the LogReader.
+func VerifPeekFull(p *Peer) VerifState {
+	return verifPeek(p, true)
+}
+
+func verifPeek(p *Peer, full bool) VerifState {
+	r := p.raft
+	s := VerifState{
+		ReplicaID:           r.replicaID,
+		Role:                r.state.String(),
+		Term:                r.term,
+		Vote:                r.vote,
+		LeaderID:            r.leaderID,
+		Committed:           r.log.committed,
+		Processed:           r.log.processed,
+		Applied:             r.applied,
+		PendingConfigChange: r.pendingConfigChange,
+		TransferTarget:      r.leaderTransferTarget,
+		Quiesce:             r.quiesce,
+		IsNonVoting:         r.state == nonVoting,
+		IsWitness:           r.state == witness,
+	}
+	if full {
+		s.FirstIndex = r.log.firstIndex()
+		s.LastIndex = r.log.lastIndex()
+		if t, err := r.log.term(s.LastIndex); err == nil {
+			s.LastTerm = t
+		}
+	}
+	add := func(m map[uint64]*remote, kind string) {
+		for id, rm := range m {
+			s.Remotes = append(s.Remotes, VerifRemote{ReplicaID: id, Match: rm.match,
+				Next: rm.next, State: rm.state.String(), Kind: kind, Active: rm.active})
+		}
+	}
+	add(r.remotes, "voter")
+	add(r.nonVotings, "nonvoting")
+	add(r.witnesses, "witness")
+	sort.Slice(s.Remotes, func(i, j int) bool {
+		return s.Remotes[i].ReplicaID < s.Remotes[j].ReplicaID
+	})
+	s.PendingReads = append(s.PendingReads, r.readIndex.queue...)
+	s.Votes = make(map[uint64]bool, len(r.votes))
+	for k, v := range r.votes {
+		s.Votes[k] = v
+	}
+	return s
+}
+
+// VerifTermAt returns the term of the entry at index as seen by p.
+func VerifTermAt(p *Peer, index uint64) (uint64, error) {
+	return p.raft.log.term(index)
+}
+
+// VerifEntries returns the entries [low, high) as seen by p.
+func VerifEntries(p *Peer, low uint64, high uint64) ([]pb.Entry, error) {
+	return p.raft.log.getEntries(low, high, noLimit)
+}
+
+// VerifEntryLog is a thin wrapper around entryLog.
+type VerifEntryLog struct {
+	l *entryLog
+}
+
+// VerifNewEntryLog creates an entryLog over the specified ILogDB.
+func VerifNewEntryLog(logdb ILogDB, maxInMemSize uint64) *VerifEntryLog {
+	return &VerifEntryLog{l: newEntryLog(logdb, server.NewInMemRateLimiter(maxInMemSize))}
+}
+
+// FirstIndex ...
+func (v *VerifEntryLog) FirstIndex() uint64 { return v.l.firstIndex() }
+
+// LastIndex ...
+func (v *VerifEntryLog) LastIndex() uint64 { return v.l.lastIndex() }
+
+// Committed ...
+func (v *VerifEntryLog) Committed() uint64 { return v.l.committed }
+
+// Processed ...
+func (v *VerifEntryLog) Processed() uint64 { return v.l.processed }
+
+// Term ...
+func (v *VerifEntryLog) Term(index uint64) (uint64, error) { return v.l.term(index) }
+
+// LastTerm ...
+func (v *VerifEntryLog) LastTerm() (uint64, error) { return v.l.lastTerm() }
+
+// Entries ...
+func (v *VerifEntryLog) Entries(low uint64, high uint64, maxSize uint64) ([]pb.Entry, error) {
+	return v.l.getEntries(low, high, maxSize)
+}
+
+// Append is what a leader does with new proposals.
+func (v *VerifEntryLog) Append(ents []pb.Entry) { v.l.append(ents) }
+
+// TryAppend is what a follower does with a Replicate message.
+func (v *VerifEntryLog) TryAppend(index uint64, logTerm uint64, committed uint64,
+	ents []pb.Entry) (uint64, bool, error) {
+	match, err := v.l.matchTerm(index, logTerm)
+	if err != nil {
+		return 0, false, err
+	}
+	if match {
+		changed, err := v.l.tryAppend(index, ents)
+		if err != nil {
+			return 0, false, err
+		}
+		_ = changed
+		lastIndex := index + uint64(len(ents))
+		v.l.commitTo(min(lastIndex, committed))
+		return lastIndex, true, nil
+	}
+	return 0, false, nil
+}
+
+// TryCommit ...
+func (v *VerifEntryLog) TryCommit(index uint64, term uint64) (bool, error) {
+	return v.l.tryCommit(index, term)
+}
+
+// CommitTo ...
+func (v *VerifEntryLog) CommitTo(index uint64) { v.l.commitTo(index) }
+
+// EntriesToSave ...
+func (v *VerifEntryLog) EntriesToSave() []pb.Entry { return v.l.entriesToSave() }
+
+// EntriesToApply ...
+func (v *VerifEntryLog) EntriesToApply() ([]pb.Entry, error) { return v.l.entriesToApply() }
+
+// HasEntriesToApply ...
+func (v *VerifEntryLog) HasEntriesToApply() bool { return v.l.hasEntriesToApply() }
+
+// CommitUpdate ...
+func (v *VerifEntryLog) CommitUpdate(uc pb.UpdateCommit) { v.l.commitUpdate(uc) }
+
+// Restore ...
+func (v *VerifEntryLog) Restore(ss pb.Snapshot) { v.l.restore(ss) }
+
+// InMemSnapshot returns the not yet processed snapshot, if any.
+func (v *VerifEntryLog) InMemSnapshot() *pb.Snapshot { return v.l.inmem.snapshot }
+
+// InMemResize ...
+func (v *VerifEntryLog) InMemResize() { v.l.inmem.resize() }
+
+// InMemTryResize ...
+func (v *VerifEntryLog) InMemTryResize() { v.l.inmem.tryResize() }
+
+// InMemState returns markerIndex, savedTo, entry count.
+func (v *VerifEntryLog) InMemState() (uint64, uint64, int) {
+	return v.l.inmem.markerIndex, v.l.inmem.savedTo, len(v.l.inmem.entries)
+}
+
+// UpToDate ...
+func (v *VerifEntryLog) UpToDate(index uint64, term uint64) (bool, error) {
+	return v.l.upToDate(index, term)
+}
